@@ -258,3 +258,270 @@ Proof.
   - apply andb_true_iff in T. destruct T as [R0 _]. apply Z.eqb_eq in R0. subst r'. nia.
   - nia.
 Qed.
+
+(* ---------- small word facts used by the rounding branch ---------- *)
+Lemma land_pow2m1 x n : 0 <= n -> Z.land x (2 ^ n - 1) = x mod 2 ^ n.
+Proof. intros Hn. rewrite <- Z.land_ones by exact Hn. rewrite Z.ones_equiv. reflexivity. Qed.
+
+Lemma land1_odd x : (Z.land x 1 =? 1) = Z.odd x.
+Proof.
+  change 1 with (2 ^ 1 - 1) at 1. rewrite land_pow2m1 by lia. change (2 ^ 1) with 2.
+  rewrite Zodd_mod. unfold Zeq_bool. destruct (Z.eqb_spec (x mod 2) 1) as [E|E]; [rewrite E; reflexivity|].
+  destruct (x mod 2 ?= 1) eqn:Cmp; try reflexivity. apply Z.compare_eq in Cmp. contradiction.
+Qed.
+
+(* the low word of (p3 : p2) >> s as the code forms it (for s = 0 the left shift by 64 is masked to a shift by 0) *)
+Lemma lor_shift_pair p2 p3 s : in_u64 p2 -> in_u64 p3 -> 0 <= s < 64 ->
+  (p3 * 18446744073709551616 + p2) / 2 ^ s < 18446744073709551616 ->
+  Z.lor (Z.shiftr p2 (s mod 64)) (wrap_u64 (Z.shiftl p3 ((64 - s) mod 64))) = (p3 * 18446744073709551616 + p2) / 2 ^ s.
+Proof.
+  unfold in_u64. intros H2 H3 Hs HQ. rewrite (Z.mod_small s 64) by lia.
+  destruct (Z.eq_dec s 0) as [->|Ns].
+  - change ((64 - 0) mod 64) with 0. rewrite Z.shiftr_0_r, Z.shiftl_0_r. change (2 ^ 0) with 1 in *. rewrite Z.div_1_r in *.
+    assert (p3 = 0) by lia. subst p3. unfold wrap_u64. rewrite Z.mod_0_l by lia. rewrite Z.lor_0_r. lia.
+  - rewrite (Z.mod_small (64 - s) 64) by lia. rewrite Z.shiftr_div_pow2, Z.shiftl_mul_pow2 by lia.
+    assert (Hps : 0 < 2 ^ s) by (apply Z.pow_pos_nonneg; lia).
+    assert (Hpt : 0 < 2 ^ (64 - s)) by (apply Z.pow_pos_nonneg; lia).
+    assert (E64 : 18446744073709551616 = 2 ^ (64 - s) * 2 ^ s) by (rewrite <- Z.pow_add_r by lia; replace (64 - s + s) with 64 by ring; reflexivity).
+    assert (EQ : (p3 * 18446744073709551616 + p2) / 2 ^ s = p3 * 2 ^ (64 - s) + p2 / 2 ^ s).
+    { rewrite E64 at 1. rewrite Z.mul_assoc, Z.div_add_l by lia. reflexivity. }
+    rewrite EQ in *.
+    assert (Hd : 0 <= p2 / 2 ^ s < 2 ^ (64 - s)).
+    { split; [apply Z.div_pos; lia|]. apply Z.div_lt_upper_bound; [lia|]. rewrite Z.mul_comm, <- E64. lia. }
+    assert (Hw : wrap_u64 (p3 * 2 ^ (64 - s)) = p3 * 2 ^ (64 - s)).
+    { unfold wrap_u64. apply Z.mod_small. split; [apply Z.mul_nonneg_nonneg; lia|]. lia. }
+    rewrite Hw. rewrite (lor_low_mult (p2 / 2 ^ s) (p3 * 2 ^ (64 - s)) (64 - s) (2 ^ (64 - s))); [lia|lia|reflexivity|exact Hd|].
+    apply Z.mod_mul. lia.
+Qed.
+
+Lemma lo_nonzero p1 p0 : 0 <= p0 < 18446744073709551616 -> 0 <= p1 ->
+  (negb (p1 =? 0) || negb (p0 =? 0)) = negb (p1 * 18446744073709551616 + p0 =? 0).
+Proof. intros. lia. Qed.
+
+Lemma round_quot_bounds C q k : 10 ^ (q - 1) <= C < 10 ^ q -> 1 <= k -> k <= q - 1 -> q - k <= 10 ->
+  1 <= (C + 5 * 10 ^ (k - 1)) / 10 ^ k <= 10000000001.
+Proof.
+  intros HC Hk Hkq Hq10. set (D := 10 ^ k). set (h := 5 * 10 ^ (k - 1)).
+  assert (HD : 0 < D) by (apply Z.pow_pos_nonneg; lia).
+  assert (E1 : 10 ^ (q - 1) = 10 ^ (q - 1 - k) * D) by (unfold D; rewrite <- Z.pow_add_r by lia; f_equal; lia).
+  assert (E2 : 10 ^ q = 10 ^ (q - k) * D) by (unfold D; rewrite <- Z.pow_add_r by lia; f_equal; lia).
+  assert (P1' : 1 <= 10 ^ (q - 1 - k)) by (apply (Z.pow_le_mono_r 10 0); lia).
+  assert (P2' : 10 ^ (q - k) <= 10 ^ 10) by (apply Z.pow_le_mono_r; lia). change (10 ^ 10) with 10000000000 in P2'.
+  assert (Hhd : 2 * h = D) by (unfold h, D; replace k with (Z.succ (k - 1)) at 2 by lia; rewrite Z.pow_succ_r by lia; ring).
+  assert (Hh : 0 < h) by lia.
+  set (a := 10 ^ (q - 1 - k)) in *. set (b := 10 ^ (q - k)) in *. rewrite E1, E2 in HC. clearbody a b D h. clear E1 E2 Hk Hkq Hq10.
+  split.
+  - apply Z.div_le_lower_bound; [lia|]. nia.
+  - assert ((C + h) / D < b + 1); [|lia]. apply Z.div_lt_upper_bound; [lia|]. nia.
+Qed.
+
+(* ---------- the two helper products of the threshold comparisons ---------- *)
+Lemma S_mul_64x64_to_128MACH CX CY : in_u64 CX -> in_u64 CY ->
+  let '(lo, hi) := i___mul_64x64_to_128MACH CX CY in
+  in_u64 lo /\ in_u64 hi /\ hi * 18446744073709551616 + lo = CX * CY.
+Proof.
+  unfold in_u64. intros HX HY. unfold i___mul_64x64_to_128MACH, i_d128_new. cbv beta iota zeta.
+  rewrite !(shiftr_lit _ 32 4294967296) by (try reflexivity; lia).
+  rewrite !(shiftl_lit _ 32 4294967296) by (try reflexivity; lia).
+  unfold wrap_u32, wrap_u64.
+  set (xh := CX / 4294967296). set (xl := CX mod 4294967296). set (yh := CY / 4294967296). set (yl := CY mod 4294967296).
+  assert (Hxh : 0 <= xh <= 4294967295) by (unfold xh; lia). assert (Hxl : 0 <= xl <= 4294967295) by (unfold xl; lia).
+  assert (Hyh : 0 <= yh <= 4294967295) by (unfold yh; lia). assert (Hyl : 0 <= yl <= 4294967295) by (unfold yl; lia).
+  assert (EX : CX = xh * 4294967296 + xl) by (unfold xh, xl; lia).
+  assert (EY : CY = yh * 4294967296 + yl) by (unfold yh, yl; lia).
+  assert (EP : CX * CY = (xh * yh) * 18446744073709551616 + (xh * yl + xl * yh) * 4294967296 + xl * yl) by (rewrite EX, EY; ring).
+  rewrite EP. clear EP EX EY.
+  pose proof (mul_bound xh yl _ _ Hxh Hyl) as B1. pose proof (mul_bound xh yh _ _ Hxh Hyh) as B2.
+  pose proof (mul_bound xl yl _ _ Hxl Hyl) as B3. pose proof (mul_bound xl yh _ _ Hxl Hyh) as B4.
+  set (a := xh * yl) in *. set (b := xh * yh) in *. set (c := xl * yl) in *. set (d := xl * yh) in *.
+  clearbody a b c d xh xl yh yl. cbn in B1, B2, B3, B4.
+  lia.
+Qed.
+
+Lemma S_mul_128x64_to_128 A B0 B1 : in_u64 A -> in_u64 B0 -> in_u64 B1 ->
+  let '(q0, q1) := i___mul_128x64_to_128 A B0 B1 in
+  in_u64 q0 /\ in_u64 q1 /\ q1 * 18446744073709551616 + q0 = (A * (B1 * 18446744073709551616 + B0)) mod 340282366920938463463374607431768211456.
+Proof.
+  intros HA H0 H1. unfold i___mul_128x64_to_128. cbv beta iota zeta.
+  pose proof (S_mul_64x64_to_128MACH A B0 HA H0) as S0. destruct (i___mul_64x64_to_128MACH A B0) as [l0 l1].
+  destruct S0 as (R3 & R4 & E0). unfold wrap_u64.
+  replace (A * (B1 * 18446744073709551616 + B0)) with ((A * B1) * 18446744073709551616 + A * B0) by ring. rewrite <- E0.
+  set (p := A * B1). clearbody p. unfold in_u64 in *. repeat split; lia.
+Qed.
+
+Lemma gt128 a1 a0 b1 b0 : 0 <= a0 < 18446744073709551616 -> 0 <= b0 < 18446744073709551616 ->
+  ((a1 >? b1) || ((a1 =? b1) && (a0 >? b0))) = (a1 * 18446744073709551616 + a0 >? b1 * 18446744073709551616 + b0).
+Proof. intros. lia. Qed.
+Lemma ge128 a1 a0 b1 b0 : 0 <= a0 < 18446744073709551616 -> 0 <= b0 < 18446744073709551616 ->
+  ((a1 >? b1) || ((a1 =? b1) && (a0 >=? b0))) = (a1 * 18446744073709551616 + a0 >=? b1 * 18446744073709551616 + b0).
+Proof. intros. lia. Qed.
+
+(* ---------- the rounded magnitude of the model and its comparisons with 2^31 and 2^31 - 1 at 11 integer digits ---------- *)
+Definition rnint_mag (C e : Z) : Z := if 0 <=? e then C * 10 ^ e else if 45 <? - e then 0 else rne_q C (- e).
+
+Lemma mag_small C q e : 10 ^ (q - 1) <= C < 10 ^ q -> 1 <= q -> q + e <= 9 -> 0 <= rnint_mag C e <= 1000000001.
+Proof.
+  intros HC Hq Hs. assert (HC0 : 0 < C) by (assert (0 < 10 ^ (q - 1)) by (apply Z.pow_pos_nonneg; lia); lia).
+  unfold rnint_mag. destruct (Z.leb_spec 0 e).
+  - assert (0 < 10 ^ e) by (apply Z.pow_pos_nonneg; lia).
+    assert (10 ^ (q + e) <= 10 ^ 9) by (apply Z.pow_le_mono_r; lia). rewrite Z.pow_add_r in H1 by lia.
+    change (10 ^ 9) with 1000000000 in *. nia.
+  - destruct (45 <? - e); [lia|]. set (k := - e) in *.
+    pose proof (rne_q_bounds C k ltac:(lia) ltac:(lia)) as RB.
+    assert (HD : 0 < 10 ^ k) by (apply Z.pow_pos_nonneg; lia).
+    assert (0 <= C / 10 ^ k) by (apply Z.div_pos; lia).
+    assert (C / 10 ^ k <= 1000000000); [|lia].
+    destruct (Z_le_gt_dec q k).
+    + assert (10 ^ q <= 10 ^ k) by (apply Z.pow_le_mono_r; lia). rewrite Z.div_small by lia. lia.
+    + assert (C / 10 ^ k < 10 ^ (q - k)).
+      { apply Z.div_lt_upper_bound; [lia|]. rewrite <- Z.pow_add_r by lia. replace (k + (q - k)) with q by ring. lia. }
+      assert (10 ^ (q - k) <= 10 ^ 9) by (apply Z.pow_le_mono_r; unfold k; lia). change (10 ^ 9) with 1000000000 in *. lia.
+Qed.
+
+(* q + e = 10: the scaled comparison the code makes. N = 2^31 (negative operands) or 2^31 - 1 (positive) *)
+Lemma mag_thresh C q e N T : 10 ^ (q - 1) <= C < 10 ^ q -> 1 <= q <= 34 -> q + e = 10 -> 0 <= N ->
+  T = N * 10 + 5 ->
+  (q <= 11 -> (rnint_mag C e <= N <-> (if Z.even N then C * 10 ^ (11 - q) <= T else C * 10 ^ (11 - q) < T))) /\
+  (12 <= q -> (rnint_mag C e <= N <-> (if Z.even N then C <= T * 10 ^ (q - 11) else C < T * 10 ^ (q - 11)))).
+Proof.
+  intros HC Hq Hs HN ->. assert (HC0 : 0 < C) by (assert (0 < 10 ^ (q - 1)) by (apply Z.pow_pos_nonneg; lia); lia).
+  unfold rnint_mag. split.
+  - intros Hq11. destruct (Z.leb_spec 0 e).
+    + (* e >= 0: the value is an integer *)
+      replace (11 - q) with (e + 1) by lia. rewrite Z.pow_add_r by lia. change (10 ^ 1) with 10.
+      set (m := C * 10 ^ e). replace (C * (10 ^ e * 10)) with (m * 10) by (unfold m; ring). clearbody m.
+      destruct (Z.even N); lia.
+    + assert (e = -1) by lia. subst e. replace (11 - q) with 0 by lia. change (10 ^ 0) with 1. rewrite Z.mul_1_r.
+      cbn [Z.opp Z.ltb Z.compare]. change (45 <? 1) with false. cbv iota.
+      pose proof (rne_q_le C 1 N ltac:(lia) ltac:(lia) HN) as RL. change (10 ^ 1) with 10 in RL. change (5 * 10 ^ (1 - 1)) with 5 in RL.
+      exact RL.
+  - intros Hq12. replace (0 <=? e) with false by lia. replace (45 <? - e) with false by lia.
+    pose proof (rne_q_le C (- e) N ltac:(lia) ltac:(lia) HN) as RL.
+    replace (- e) with (q - 10) in * by lia.
+    assert (E : (N * 10 + 5) * 10 ^ (q - 11) = N * 10 ^ (q - 10) + 5 * 10 ^ (q - 10 - 1)).
+    { replace (q - 10) with (Z.succ (q - 11)) by lia. rewrite Z.pow_succ_r by lia. replace (Z.succ (q - 11) - 1) with (q - 11) by lia. ring. }
+    rewrite E. exact RL.
+Qed.
+
+Lemma pow10_u64' d : 0 <= d < 20 -> in_u64 (10 ^ d).
+Proof.
+  intros H. unfold in_u64. split; [apply Z.pow_nonneg; lia|].
+  apply Z.le_lt_trans with (10 ^ 19); [apply Z.pow_le_mono_r; lia|]. vm_compute. reflexivity.
+Qed.
+
+(* the 128-bit threshold T * 10^(q-11) as the code forms it (12 <= q <= 34) *)
+Lemma thresh_pair T q : 0 <= T <= 21474836485 -> 12 <= q <= 34 ->
+  let '(c0, c1) :=
+      if wrap_i32 (q - 11) <=? 19
+      then let '(C_w0, C_w1) := i___mul_64x64_to_128MACH T (nth (Z.to_nat (wrap_usize (wrap_i32 (q - 11)))) T_BID_TEN2K64 0) in (C_w0, C_w1)
+      else let '(C_w0, C_w1) := i___mul_128x64_to_128 T (nth (Z.to_nat (wrap_usize (wrap_i32 (q - 31)))) T_BID_TEN2K128_w0 0)
+                                  (nth (Z.to_nat (wrap_usize (wrap_i32 (q - 31)))) T_BID_TEN2K128_w1 0) in (C_w0, C_w1) in
+  0 <= c0 < 18446744073709551616 /\ c1 * 18446744073709551616 + c0 = T * 10 ^ (q - 11).
+Proof.
+  intros HT Hq. rewrite (wrap_i32_id (q - 11)) by (unfold in_i32; lia).
+  assert (TU : in_u64 T) by (unfold in_u64; lia).
+  destruct (Z.leb_spec (q - 11) 19).
+  - rewrite (wrap_usize_id (q - 11)) by (unfold in_u64; lia). rewrite (ten2k64_row (q - 11)) by lia.
+    pose proof (S_mul_64x64_to_128MACH T (10 ^ (q - 11)) TU (pow10_u64' (q - 11) ltac:(lia))) as S.
+    destruct (i___mul_64x64_to_128MACH T (10 ^ (q - 11))) as [a b]. destruct S as (A & B & E). unfold in_u64 in A. split; [exact A|exact E].
+  - rewrite (wrap_i32_id (q - 31)) by (unfold in_i32; lia). rewrite (wrap_usize_id (q - 31)) by (unfold in_u64; lia).
+    destruct (ten2k128_row (q - 31) ltac:(lia)) as (R0 & R1 & RE). replace (q - 31 + 20) with (q - 11) in RE by ring.
+    pose proof (S_mul_128x64_to_128 T _ _ TU R0 R1) as S.
+    destruct (i___mul_128x64_to_128 T _ _) as [a b]. destruct S as (A & B & E). rewrite RE in E. unfold in_u64 in A. split; [exact A|].
+    rewrite E. apply Z.mod_small.
+    assert (0 < 10 ^ (q - 11)) by (apply Z.pow_pos_nonneg; lia).
+    assert (10 ^ (q - 11) <= 10 ^ 23) by (apply Z.pow_le_mono_r; lia). change (10 ^ 23) with 100000000000000000000000 in *. nia.
+Qed.
+
+(* ---------- round-half-away (RNA): the add-half quotient without tie correction ---------- *)
+Definition rna_q (c k : Z) : Z := (c + 5 * 10 ^ (k - 1)) / 10 ^ k.
+
+Lemma rna_choice s c k : 0 <= c -> 1 <= k ->
+  choice RNA s (c / 10 ^ k) (loc_of_rem (c mod 10 ^ k) (10 ^ k)) = rna_q c k.
+Proof.
+  intros Hc Hk. unfold rna_q.
+  set (D := 10 ^ k). assert (HD : 0 < D) by (apply Z.pow_pos_nonneg; lia).
+  assert (DH : D = 2 * (5 * 10 ^ (k - 1))) by (unfold D; replace k with (Z.succ (k - 1)) at 1 by lia; rewrite Z.pow_succ_r by lia; ring).
+  set (h := 5 * 10 ^ (k - 1)) in *. assert (Hh : 0 < h) by (unfold h; assert (0 < 10 ^ (k - 1)) by (apply Z.pow_pos_nonneg; lia); lia).
+  pose proof (Z.div_mod c D ltac:(lia)) as DM. pose proof (Z.mod_pos_bound c D HD) as MB.
+  set (q := c / D) in *. set (r := c mod D) in *.
+  assert (E1 : (c + h) / D = q + (if r + h <? D then 0 else 1)).
+  { destruct (Z.ltb_spec (r + h) D).
+    - symmetry; apply (Z.div_unique (c + h) D (q + 0) (r + h)); lia.
+    - symmetry; apply (Z.div_unique (c + h) D (q + 1) (r + h - D)); lia. }
+  rewrite E1. clear E1. clearbody q r h D. clear DM Hc.
+  unfold choice, loc_of_rem, round_N, cond_incr.
+  destruct (Z.eqb_spec r 0) as [R0|R0].
+  - destruct (Z.ltb_spec (r + h) D); lia.
+  - destruct (Z.compare_spec (2 * r) D); destruct (Z.ltb_spec (r + h) D); lia.
+Qed.
+
+Lemma rna_q_le c k N : 0 <= c -> 1 <= k -> (rna_q c k <= N <-> c < N * 10 ^ k + 5 * 10 ^ (k - 1)).
+Proof.
+  intros Hc Hk. unfold rna_q.
+  set (D := 10 ^ k). assert (HD : 0 < D) by (apply Z.pow_pos_nonneg; lia).
+  assert (DH : D = 2 * (5 * 10 ^ (k - 1))) by (unfold D; replace k with (Z.succ (k - 1)) at 1 by lia; rewrite Z.pow_succ_r by lia; ring).
+  set (h := 5 * 10 ^ (k - 1)) in *. clearbody h D. clear Hk. split.
+  - intros H. destruct (Z_lt_le_dec c (N * D + h)) as [L|L]; [exact L|exfalso].
+    assert (N + 1 <= (c + h) / D) by (apply Z.div_le_lower_bound; lia). lia.
+  - intros H. assert ((c + h) / D < N + 1) by (apply Z.div_lt_upper_bound; lia). lia.
+Qed.
+
+Lemma rna_q_bounds c k : 0 <= c -> 1 <= k -> c / 10 ^ k <= rna_q c k <= c / 10 ^ k + 1.
+Proof.
+  intros Hc Hk. unfold rna_q.
+  set (D := 10 ^ k). assert (HD : 0 < D) by (apply Z.pow_pos_nonneg; lia).
+  assert (DH : D = 2 * (5 * 10 ^ (k - 1))) by (unfold D; replace k with (Z.succ (k - 1)) at 1 by lia; rewrite Z.pow_succ_r by lia; ring).
+  set (h := 5 * 10 ^ (k - 1)) in *. assert (Hh : 0 < h) by (unfold h; assert (0 < 10 ^ (k - 1)) by (apply Z.pow_pos_nonneg; lia); lia).
+  clearbody h D. split.
+  - apply Z.div_le_mono; lia.
+  - assert ((c + h) / D <= (c + D) / D) by (apply Z.div_le_mono; lia).
+    replace (c + D) with (c + 1 * D) in H by ring. rewrite Z.div_add in H by lia. exact H.
+Qed.
+
+Definition rninta_mag (C e : Z) : Z := if 0 <=? e then C * 10 ^ e else if 45 <? - e then 0 else rna_q C (- e).
+
+Lemma mag_small_a C q e : 10 ^ (q - 1) <= C < 10 ^ q -> 1 <= q -> q + e <= 9 -> 0 <= rninta_mag C e <= 1000000001.
+Proof.
+  intros HC Hq Hs. assert (HC0 : 0 < C) by (assert (0 < 10 ^ (q - 1)) by (apply Z.pow_pos_nonneg; lia); lia).
+  unfold rninta_mag. destruct (Z.leb_spec 0 e).
+  - assert (0 < 10 ^ e) by (apply Z.pow_pos_nonneg; lia).
+    assert (10 ^ (q + e) <= 10 ^ 9) by (apply Z.pow_le_mono_r; lia). rewrite Z.pow_add_r in H1 by lia.
+    change (10 ^ 9) with 1000000000 in *. nia.
+  - destruct (45 <? - e); [lia|]. set (k := - e) in *.
+    pose proof (rna_q_bounds C k ltac:(lia) ltac:(lia)) as RB.
+    assert (HD : 0 < 10 ^ k) by (apply Z.pow_pos_nonneg; lia).
+    assert (0 <= C / 10 ^ k) by (apply Z.div_pos; lia).
+    assert (C / 10 ^ k <= 1000000000); [|lia].
+    destruct (Z_le_gt_dec q k).
+    + assert (10 ^ q <= 10 ^ k) by (apply Z.pow_le_mono_r; lia). rewrite Z.div_small by lia. lia.
+    + assert (C / 10 ^ k < 10 ^ (q - k)).
+      { apply Z.div_lt_upper_bound; [lia|]. rewrite <- Z.pow_add_r by lia. replace (k + (q - k)) with q by ring. lia. }
+      assert (10 ^ (q - k) <= 10 ^ 9) by (apply Z.pow_le_mono_r; unfold k; lia). change (10 ^ 9) with 1000000000 in *. lia.
+Qed.
+
+Lemma mag_thresh_a C q e N T : 10 ^ (q - 1) <= C < 10 ^ q -> 1 <= q <= 34 -> q + e = 10 -> 0 <= N ->
+  T = N * 10 + 5 ->
+  (q <= 11 -> (rninta_mag C e <= N <-> C * 10 ^ (11 - q) < T)) /\
+  (12 <= q -> (rninta_mag C e <= N <-> C < T * 10 ^ (q - 11))).
+Proof.
+  intros HC Hq Hs HN ->. assert (HC0 : 0 < C) by (assert (0 < 10 ^ (q - 1)) by (apply Z.pow_pos_nonneg; lia); lia).
+  unfold rninta_mag. split.
+  - intros Hq11. destruct (Z.leb_spec 0 e).
+    + replace (11 - q) with (e + 1) by lia. rewrite Z.pow_add_r by lia. change (10 ^ 1) with 10.
+      set (m := C * 10 ^ e). replace (C * (10 ^ e * 10)) with (m * 10) by (unfold m; ring). clearbody m. lia.
+    + assert (e = -1) by lia. subst e. replace (11 - q) with 0 by lia. change (10 ^ 0) with 1. rewrite Z.mul_1_r.
+      cbn [Z.opp Z.ltb Z.compare]. change (45 <? 1) with false. cbv iota.
+      pose proof (rna_q_le C 1 N ltac:(lia) ltac:(lia)) as RL. change (10 ^ 1) with 10 in RL. change (5 * 10 ^ (1 - 1)) with 5 in RL.
+      exact RL.
+  - intros Hq12. replace (0 <=? e) with false by lia. replace (45 <? - e) with false by lia.
+    pose proof (rna_q_le C (- e) N ltac:(lia) ltac:(lia)) as RL.
+    replace (- e) with (q - 10) in * by lia.
+    assert (E : (N * 10 + 5) * 10 ^ (q - 11) = N * 10 ^ (q - 10) + 5 * 10 ^ (q - 10 - 1)).
+    { replace (q - 10) with (Z.succ (q - 11)) by lia. rewrite Z.pow_succ_r by lia. replace (Z.succ (q - 11) - 1) with (q - 11) by lia. ring. }
+    rewrite E. exact RL.
+Qed.
+
+Lemma lt128 a1 a0 b1 b0 : 0 <= a0 < 18446744073709551616 -> 0 <= b0 < 18446744073709551616 ->
+  ((a1 <? b1) || ((a1 =? b1) && (a0 <? b0))) = (a1 * 18446744073709551616 + a0 <? b1 * 18446744073709551616 + b0).
+Proof. intros. lia. Qed.
